@@ -1,8 +1,18 @@
 /-
 C04 — Least disturbance: unmoved where free, nearest least-squares fit where linear.
 
-* This file (every scalar type): a variable whose step component is a neutral element keeps its
-  guess through the whole solve; an empty request list returns the guesses.
+* `Ezpz/Proofs/Untouched2.lean` (every scalar type): a variable that no request mentions has no
+  triplet in its Jacobian column (`jacobianAll_no_column`), so a solver that returns a neutral element
+  for such columns (`ZeroStepOn`) leaves it at its guess through the whole solve
+  (`untouched_var_fixed'`); `Ezpz/Real/UntouchedEntry.lean`: every exact solver over ℝ is such a solver
+  (`zeroStepOn_of_exact`), hence `unmentioned_variable_returned_at_guess`.  This file: the empty
+  request list returns the guesses.
+* `Ezpz/Real/LinearEntry.lean`: the bridge from the model to the linear-algebra theorems below —
+  for a list of linear kinds the assembled residual is `A x − b` with a constant `A`
+  (`assembled_affine`), one round of the model's loop with an exact solver is an `IsStep`
+  (`newtonStep_isStep`), and after `j` executed rounds the distance to the nearest solution of a
+  consistent system has contracted by `q^j` (`newtonRun_converges_prefix`,
+  `newtonLoop_result_contracts`).
 * `Ezpz/Real/GaussNewton.lean`: `untouched_var_step_zero` — the exact step has a zero component for
   every variable whose Jacobian column is zero (no constraint mentions it); `step_identity`.
 * `Ezpz/Real/Linear.lean`: `linear_kinds_affine`, `linear_kinds_constant_jacobian`.
@@ -23,10 +33,16 @@ open Ezpz Transc
 variable {α : Type} [Add α] [Sub α] [Mul α] [Div α] [Neg α] [OfScientific α]
   [LT α] [DecidableLT α] [LE α] [DecidableLE α] [Transc α]
 
-/-- C04.1 — **a variable the step does not move is returned at its guess**, at the public entry
-point: if at every level the solver's answer has the neutral element `z` (`a + z = a`) in slot `j`,
-any successful result returns variable `j`'s guess exactly. -/
-theorem untouched_var_fixed (reqs : List (Constraint α × Nat)) (g : List (Nat × α)) (cfg : Config α)
+/-- Stepping stone only (kept for its proof pattern): if at every level the solver's answer has
+the neutral element `z` in slot `j` FOR EVERY JACOBIAN IT IS HANDED, a successful result returns
+variable `j`'s guess.  The hypothesis `ZeroStepAt` is not met by any exact solver (it ranges over
+Jacobians whose column `j` is not zero), so this statement does not carry the property's clause.
+The clause itself — *no request mentions `j`* ⇒ returned at its guess — is
+`untouched_var_fixed'` (`Ezpz/Proofs/Untouched2.lean`, every scalar type, hypothesis `ZeroStepOn`
+restricted to Jacobians without a column `j`, plus `jacobianAll_no_column`) and, with the hypothesis
+discharged for exact solvers over ℝ, `unmentioned_variable_returned_at_guess`
+(`Ezpz/Real/UntouchedEntry.lean`). -/
+theorem untouched_var_fixed_of_zeroStepAt (reqs : List (Constraint α × Nat)) (g : List (Nat × α)) (cfg : Config α)
     (solve : LinSolve α) (svd : Option (Svd α)) (j : Nat) (z a : α)
     (hz : ∀ i, ZeroStepAt (solve i) j z) (hg : (g.map (·.2))[j]? = some a) (o : Outcome α)
     (h : solveWithPriority reqs g cfg solve svd = .ok o) : o.finalValues[j]? = some a := by
